@@ -21,13 +21,13 @@ func C03(tier string) {
 	var chains []gen.Chain
 	switch tier {
 	case "thorough":
-		chains = chainWorkload(run.SeedV, tier, links, 3000, 1000, 7)
+		chains = chainWorkload(run.SeedV, tier, links, 2000, 300, 7)
 	case "triage":
 		chains = chainWorkload(run.SeedV, tier, links, 0, 0, 3)
 	case "smoke":
 		chains = chainWorkload(run.SeedV, tier, links[:40], 0, 0, 3)
 	default:
-		chains = chainWorkload(run.SeedV, tier, links, 150, 60, 5)
+		chains = chainWorkload(run.SeedV, tier, links, 300, 60, 5)
 	}
 	opts := c03Opts()
 	per := 45
